@@ -22,7 +22,8 @@ type Clause struct {
 }
 
 type LoopSpec struct {
-	Key        string // induction variable name, or "#<ordinal>"
+	Key        string // induction variable name (optionally name#k for the k-th loop with that variable), or "#<ordinal>"
+	Alias      string // `as <name>`: binds the loop's range index (or first induction phi) under this name
 	Unroll     int    // >0: unroll completely with this bound
 	Invariants []*Clause
 	Decreases  *Clause
@@ -340,6 +341,11 @@ func (cs *Contracts) parseFile(file, pkg, src string) error {
 					}
 				case "havoc":
 					loop.Havoc = true
+				case "as":
+					if i+1 < len(parts) {
+						loop.Alias = parts[i+1]
+						i++
+					}
 				}
 			}
 			fc.Loops = append(fc.Loops, loop)
@@ -424,6 +430,16 @@ func (fc *FuncContract) Key() string { return fc.Pkg + "." + fc.Name }
 func (fc *FuncContract) loopSpec(key string, ordinal int) *LoopSpec {
 	for _, l := range fc.Loops {
 		if l.Key == key || l.Key == fmt.Sprintf("#%d", ordinal) {
+			return l
+		}
+	}
+	return nil
+}
+
+// loopSpecNamed: key "name" matches the first loop carrying that variable name, "name#k" the k-th (1-based).
+func (fc *FuncContract) loopSpecNamed(name string, occurrence int) *LoopSpec {
+	for _, l := range fc.Loops {
+		if l.Key == fmt.Sprintf("%s#%d", name, occurrence) || (occurrence == 1 && l.Key == name) {
 			return l
 		}
 	}
